@@ -77,11 +77,19 @@ package output
 //@   callsite remove
 //@     assumepre forall i int, j int :: 0 <= i && i < j && j < len(d.b.tasks) ==> !(d.b.tasks[i] == d.t && d.b.tasks[j] == d.t) // a task object is started at most once at a time (typestate of TaskOutput, not expressible through the decorator interface)
 //@ func (*baseCockpit).add
+// lock discipline (C19 "never crashes the output layer" / C03, C04, C12): a mutex is released exactly where it
+// is held — unlocking an unlocked mutex is a fatal runtime error, leaving one locked blocks the next task for ever
+//@   effect unlock-only-held
+//@   effect no lock-held at return
 //@   requires b != nil && t != nil
 //@   modifies baseCockpit.*, spinner.Spinner.*
 // remove: t occurs at most once in the list of running tasks (every task object is started at most
 // once at a time); with a duplicate the in-place deletion inside the range loop would slice out of range
 //@ func (*baseCockpit).remove
+// lock discipline (C19 "never crashes the output layer" / C03, C04, C12): a mutex is released exactly where it
+// is held — unlocking an unlocked mutex is a fatal runtime error, leaving one locked blocks the next task for ever
+//@   effect unlock-only-held
+//@   effect no lock-held at return
 //@   requires b != nil && t != nil
 //@   requires #no-duplicate forall i int, j int :: 0 <= i && i < j && j < len(b.tasks) ==> !(b.tasks[i] == t && b.tasks[j] == t)
 //@   modifies baseCockpit.*, spinner.Spinner.*, contents(b.tasks)
@@ -113,5 +121,9 @@ package output
 //@   requires l.t != nil && l.dst != nil
 //@   modifies *
 //@   ensures #C19.one-write-per-line calls(Fprintf) == 1
+//@   ghostlocal sinkErr error
+//@   callsite Fprintf
+//@     ghost sinkErr = result#1
+//@   ensures #C19.sink-error-is-reported sinkErr != nil ==> err != nil
 //@   ensures #C19.reports-the-whole-line-consumed result == len(p)
 //@   ensures #C19.callers-bytes-untouched forall i int :: 0 <= i && i < len(p) ==> p[i] == old(p[i]) // io.Writer: Write must not modify the slice data, even temporarily
